@@ -479,6 +479,11 @@ def _normalize_python_version_specifier(marker: MarkerExpression) -> BaseSpecifi
         # skip this case, so in the following code value must be a dotted version string
         return marker.specifier
     splitted = [p.strip() for p in value.split(".")]
+    if op != "~=":
+        # python_version is always X.Y: trailing ".0" segments of the operand
+        # change nothing ("3.8.0" compares like "3.8")
+        while len(splitted) > 2 and splitted[-1] == "0":
+            splitted.pop()
     if len(splitted) > 2 or "*" in splitted:
         return marker.specifier
     if len(splitted) == 1:
